@@ -36,12 +36,12 @@ func vStubSleepEnv(d time.Duration) {
 
 // vQueued returns the k-th segment created by the call, in creation order:
 // first the ones the environment already popped, then those still queued.
-func vQueuedCount(s *Session) int { return vPoppedN + vTrees[s.sendQueue.tr].n }
+func vQueuedCount(s *Session) int { return vPoppedN + vModelOf(s.sendQueue).n }
 func vQueuedAt(s *Session, k int) *segment {
 	if k < vPoppedN {
 		return vPopped[k]
 	}
-	return vTrees[s.sendQueue.tr].items[k-vPoppedN]
+	return vModelOf(s.sendQueue).items[k-vPoppedN]
 }
 
 func vWriteChunkCase(tr common.TransportProtocol, isClient bool, mtu int, n int) {
